@@ -1,12 +1,12 @@
 package main
 
 import (
-	"os"
 	"bytes"
 	"context"
 	"encoding/json"
 	"fmt"
 	"math"
+	"os"
 	"strconv"
 	"unicode/utf8"
 
